@@ -405,6 +405,37 @@ def run_c05(ck, ctx):
                                           'seeds': [outs[k] for k in ks[:2]], 'first_differing_errors': [(a, b) for a, b in zip(ks[0][0], ks[1][0]) if a != b][:3],
                                           'input_hex': G.encode(pk).hex()[:400000], 'replay': f'FASTPASTA_VERIF_SCHED=<seed> {L.HOOKBIN} in.raw ' + ' '.join(mode_args(m) + mute)})
     ck.dist['distinct_arrival_orders_total'] = distinct_orders
+    # ---- (3) very many errors from several concurrent validators (far beyond any 16-bit count): every run must store
+    # every message, in the same (offset) order — whatever the validators' relative progress
+    npk = 70000
+    hb = bytearray()
+    for i in range(npk):
+        f = dict(G.RDH_DEFAULT); l = i % 3
+        f.update(link=l, fee=0x1000 | l, orbit=10 + i // 6, page=(i // 3) % 2, stop=(i // 3) % 2, size=64, off=64, pkt=i & 0xFF, res0=1 if i else 0)
+        hb += G.rdh_bytes(f)
+    inp = os.path.join(wd, 'many.raw'); open(inp, 'wb').write(hb)
+    outs = {}
+    for rep in range(3 if tier == 'quick' else 8):
+        sp = os.path.join(wd, 'many.json')
+        if os.path.exists(sp): os.remove(sp)
+        b = L.HOOKBIN if rep == 1 else L.BIN
+        env = dict(os.environ, FASTPASTA_VERIF_SCHED=str(7 + rep)) if b == L.HOOKBIN else None
+        r = subprocess.run([b, inp, 'check', 'sanity', '-m', '-S', sp, '-D', 'json', '-E', '3'], stdout=subprocess.PIPE, stderr=subprocess.PIPE, env=env, timeout=600)
+        stats = open(sp, 'rb').read() if os.path.exists(sp) else b''
+        outs.setdefault((stats, r.returncode), rep)
+        ck.case(('many_errors', rep)); ck.count('many_error_runs')
+        if rep == 0 and stats:
+            es = json.loads(stats)['error_stats']
+            offs = [int(m.split(':')[0], 16) for m in es['reported_errors']]
+            want = [64 * i for i in range(1, npk)]
+            if es['total_errors'] != npk - 1 or offs != want:
+                ck.violation('many', {'what': 'with %d errors from three links the stored error list is not the complete, offset-ordered list' % (npk - 1),
+                                      'total_errors': es['total_errors'], 'stored': len(offs), 'first_difference': next((i for i, (a, c) in enumerate(zip(offs, want)) if a != c), min(len(offs), len(want))),
+                                      'input': '70000 RDH-only packets on links 0,1,2; RDH0 reserved bit set in all but the first', 'args': ['check', 'sanity', '-m']})
+    if len(outs) > 1:
+        ck.violation('schedule', {'what': 'results depend on thread scheduling: statistics file / exit status differ between runs on an input with %d errors' % (npk - 1),
+                                  'distinct_outcomes': len(outs), 'args': ['check', 'sanity', '-m', '-D', 'json'],
+                                  'input': '70000 RDH-only packets on links 0,1,2; RDH0 reserved bit set in all but the first'})
     shutil.rmtree(wd, ignore_errors=True)
     ck.sample(dict(note='real binary with hook H2 run under different perturbation seeds; arrival order at the collector traced'))
 
@@ -793,18 +824,23 @@ def run_c17(ck, ctx):
         if i == npk // 2: f['res0'] = 1
         hb += G.rdh_bytes(f)
     huge = os.path.join(wd, 'huge.raw'); open(huge, 'wb').write(hb)
-    for rep in range(3 if tier == 'quick' else 12):
+    ign = os.path.join(wd, 'ignored_out.raw')
+    for rep in range(6 if tier == 'quick' else 24):
         b = bins[rep % len(bins)]
         env = dict(os.environ, FASTPASTA_VERIF_SCHED=str(rep + 1)) if b == L.HOOKBIN else None
+        # every valid option combination has its own hand-off wiring in `process()`: half of the repetitions add a filter and an
+        # output destination to the check / view command (legal; the output is documented as ignored then)
+        opt = ['-f', '0', '-o', ign] if rep >= (3 if tier == 'quick' else 12) else []
         if rep % 3 == 2:
-            p = subprocess.Popen([b, huge, 'check', 'all', '-e', '1'], stdout=subprocess.DEVNULL, stderr=subprocess.PIPE, env=env)
+            args = ['check', 'all', '-e', '1'] + opt
+            p = subprocess.Popen([b, huge] + args, stdout=subprocess.DEVNULL, stderr=subprocess.PIPE, env=env)
             ck.case(('full_queues_cap', rep))
             # the perturbed build sleeps (up to 0.5 ms) at every hand-off, i.e. several times per packet: its time bound has to
             # grow with the number of packets before the fault (measured: 23 s for 100 000 packets), the release build's does not
-            finish(p, time.time(), 'cap: error cap reached in mid-stream of a long input', dict(args=['check', 'all', '-e', '1'], packets=npk),
+            finish(p, time.time(), 'cap: error cap reached in mid-stream of a long input', dict(args=args, packets=npk),
                    bound=BOUND + (npk * 0.0006 if b == L.HOOKBIN else 0))
             continue
-        p = subprocess.Popen([b, huge, 'view', 'rdh'], stdout=subprocess.PIPE, stderr=subprocess.PIPE, env=env)
+        p = subprocess.Popen([b, huge, 'view', 'rdh'] + opt, stdout=subprocess.PIPE, stderr=subprocess.PIPE, env=env)
         errbuf = []
         th = threading.Thread(target=lambda: errbuf.append(p.stderr.read()), daemon=True); th.start()
         time.sleep(1.0)                                  # stdout is not read: the view blocks, the queues fill up
@@ -821,7 +857,7 @@ def run_c17(ck, ctx):
         if rc is None and p.poll() is None:
             p.kill(); p.wait()
             ck.violation('hang', {'what': 'signal while the queues are full (stalled stdout consumer): the process did not end within %.0f s (deadlock)' % BOUND,
-                                  'args': ['view', 'rdh'], 'packets': npk, 'binary': 'hook' if b == L.HOOKBIN else 'release'})
+                                  'args': ['view', 'rdh'] + opt, 'packets': npk, 'binary': 'hook' if b == L.HOOKBIN else 'release'})
             continue
         th.join(5)
         errs = L.ANSI.sub('', (errbuf[0] if errbuf else b'').decode('utf-8', 'replace'))
